@@ -256,6 +256,8 @@ pub fn dump<'a>(dwarf: &Dwarf<R<'a>>) -> Result<Vec<String>, String> {
             for a in e.attrs() {
                 match a.name() {
                     gimli::DW_AT_sibling => continue,
+                    // the line program is dumped as rows below; the writer omits an unused empty program
+                    gimli::DW_AT_stmt_list => continue,
                     gimli::DW_AT_addr_base | gimli::DW_AT_str_offsets_base | gimli::DW_AT_rnglists_base | gimli::DW_AT_loclists_base | gimli::DW_AT_GNU_addr_base | gimli::DW_AT_GNU_ranges_base => continue,
                     _ => {}
                 }
